@@ -992,11 +992,21 @@ func (e *runtimeEnv) buildBatchWith(b *batchImpl) *flyt.BatchNodeBuilder {
 	var baseOpts []any
 	optBudget := cfg.Build == "option" || cfg.Build == "mixed2"
 	optWait := cfg.Build == "option" || cfg.Build == "mixed"
-	if optBudget {
+	// the four settings write four different fields: the order in which they are made is immaterial. Half of the nodes
+	// get them in the order error mode, wait, concurrency, budget instead of budget, concurrency, wait, error mode
+	swapped := (cfg.Budget+cfg.Conc+len(cfg.Shape)+len(cfg.ExecS))%2 == 1
+	if optBudget && !swapped {
 		baseOpts = append(baseOpts, flyt.WithMaxRetries(cfg.Budget), flyt.WithBatchConcurrency(cfg.Conc))
 	}
 	if optWait {
-		baseOpts = append(baseOpts, flyt.WithWait(wait), flyt.WithBatchErrorHandling(!cfg.Stop))
+		if swapped {
+			baseOpts = append(baseOpts, flyt.WithBatchErrorHandling(!cfg.Stop), flyt.WithWait(wait))
+		} else {
+			baseOpts = append(baseOpts, flyt.WithWait(wait), flyt.WithBatchErrorHandling(!cfg.Stop))
+		}
+	}
+	if optBudget && swapped {
+		baseOpts = append(baseOpts, flyt.WithBatchConcurrency(cfg.Conc), flyt.WithMaxRetries(cfg.Budget))
 	}
 	bb := flyt.NewBatchNode(baseOpts...)
 	native := cfg.Shape == "results" && cfg.Fb == "pass" && cfg.ExecVia == ""
@@ -1033,11 +1043,18 @@ func (e *runtimeEnv) buildBatchWith(b *batchImpl) *flyt.BatchNodeBuilder {
 		}
 		bb.BatchNode.CustomNode = nb.CustomNode
 	}
-	if !optBudget {
+	if !optBudget && !swapped {
 		bb.WithMaxRetries(cfg.Budget).WithBatchConcurrency(cfg.Conc)
 	}
 	if !optWait {
-		bb.WithWait(wait).WithBatchErrorHandling(!cfg.Stop)
+		if swapped {
+			bb.WithBatchErrorHandling(!cfg.Stop).WithWait(wait)
+		} else {
+			bb.WithWait(wait).WithBatchErrorHandling(!cfg.Stop)
+		}
+	}
+	if !optBudget && swapped {
+		bb.WithBatchConcurrency(cfg.Conc).WithMaxRetries(cfg.Budget)
 	}
 	if cfg.Shape == "results" {
 		bb.WithPrepFunc(prepRes)
